@@ -16,6 +16,19 @@ CHECKS = {
    technique="deterministic simulation: simulated disk with crash at every write boundary + injected write failures, reopen oracle with independent state traversal",
    text="Seeded import histories (forks, reorganisations to longer and shorter-heavier branches, duplicates, restarts, Stop; archive and pruning profiles, scaled batch flushing) run once on a recording simulated disk; every prefix of the write log (thorough: all; quick: all inside reorg/restart/Stop windows + 25% sample) is reopened with the real NewBlockChain and judged: no error/panic, head = LastBlock's nearest ancestor with complete state (independent MPT traversal), state equal to the oracle node's, number index = ancestry, root-present-implies-complete, re-feeding converges. Separately each write attempt is made to fail once (thorough: all; quick: every 7th): no deadlock (watchdog + lock-leak recogniser), survivors and post-failure crash images satisfy the same oracle. Sampling of histories, complete enumeration of crash points per history.",
    note="Trusted: go1.26.8 + testing/synctest, the harness, the reference MPT/RLP decoder, the crash model (LevelDB batches atomic, acknowledged writes survive process death; power-loss semantics below that are out of scope), log.Crit = process death via the guarded hook."),
+
+ "C01": dict(engine="chainsim", category="exploration", design_ref="§3 C01",
+   technique="deterministic simulation: multi-node cross-history differential against an oracle node + Byzantine block mutation, seeded search over delivery orders, restarts and crashes",
+   text="Seeded block trees (built by the repo's own block builder) are delivered to 2-4 real nodes with different cache profiles in different parent-closed orders and batchings, with duplicates, clean restarts and crash-restarts at rest; for every block a node imports, receipts (status/root, cumulative gas, bloom, logs), gas used and the complete post-state (independent MPT traversal through the node's trie database) must equal the oracle node's. Corrupted copies (14 single-field corruptions of header commitments and body) must be rejected with head, header head, canonical index and head state unchanged. Sampling, not enumeration.",
+   note="Trusted: synctest, harness, reference MPT traversal; the oracle node is the same real code on a fault-free archive database (differential, not a model); the miner's block-building path is not yet part of this check (GenerateChain is)."),
+ "C02": dict(engine="chainsim", category="exploration", design_ref="§3 C02",
+   technique="deterministic simulation: seeded delivery orders of block trees to real nodes, fork-choice reference model (sum of header difficulties) checked after every import",
+   text="For seeded trees that deliberately contain shorter-but-heavier and longer-but-lighter branches, every parent-closed delivery order/batching sampled must leave the head at a block of maximal total difficulty among the blocks handed over (ties either way), with stored TD = parent TD + difficulty = model TD, head TD non-decreasing over imports, unchanged head across clean restarts, and equal head TD on all nodes once everything is delivered.",
+   note="Trusted: synctest, harness, the model (TD from header difficulties in the simulator's tree). 'Heaviest among accepted blocks' coincides with the statement for parent-closed valid deliveries; the literal form (block and state present) is reported in the violation text."),
+ "C03": dict(engine="chainsim", category="exploration", design_ref="§3 C03",
+   technique="deterministic simulation: seeded InsertChain/InsertHeaderChain/SetHead/restart histories, canonical-index and tx-lookup reference model checked at rest after every operation",
+   text="After every operation on full, header-only and headers-then-blocks nodes: every height up to the head maps to the head's ancestor in the simulator's tree, nothing maps above the head (64 heights probed), canonical blocks up to the block head have header/body/receipts/TD, and every transaction ever mined resolves iff it is in a canonical block, to that block and index (including transactions mined on two branches). Reorganisations to shorter branches and rewinds are generated on purpose.",
+   note="Trusted: synctest, harness, ancestry model. Header-first imports are generated as properly separated phases on one branch (what that import path supports). One known finding is filtered by its specific signature (known_findings.json)."),
 }
 
 def main():
